@@ -72,6 +72,9 @@ type Spec struct {
 	Encoded   []string            `json:"encoded"` // documentation: functions under test
 	Stubs     map[string]string   `json:"stubs"`   // extra contract stubs: function -> noop|real
 	JSONStub  bool                `json:"json_stub"` // replace encoding/json by the contract stub
+	ScanMapRanges bool            `json:"scan_map_ranges"` // list every range-over-map site of the loaded target packages
+	CoveredSites  []string        `json:"covered_sites"`   // functions whose map ranges have an order-independence harness
+	ScanPackages  []string        `json:"scan_packages"`   // extra package patterns loaded for the scan
 }
 
 // defaultStubs are applied to every check (each one that fires is listed in the evidence).
@@ -260,6 +263,9 @@ func load(spec *Spec, specDir string) (*loaded, error) {
 		}
 	}
 	sort.Strings(patterns)
+	nHarnessPkgs := len(patterns)
+	patterns = append(patterns, spec.ScanPackages...) // extra packages, loaded only to be scanned
+	_ = nHarnessPkgs
 	pkgs, err := packages.Load(cfg, patterns...)
 	if err != nil {
 		return nil, err
@@ -613,6 +619,57 @@ func cmdCheck(args []string) int {
 			delete(w.InitStd, p)
 		}
 	}
+	var mapSites, uncoveredSites []string
+	if spec.ScanMapRanges {
+		seenSite := map[string]bool{}
+		for fn := range ssautil.AllFunctions(ld.prog) {
+			if fn.Pkg == nil || !strings.HasPrefix(fn.Pkg.Pkg.Path(), modulePath) || strings.HasSuffix(fn.Pkg.Pkg.Path(), "internal/verifrt") {
+				continue
+			}
+			file := ld.prog.Fset.Position(fn.Pos()).Filename
+			if strings.Contains(file, "zz_verif_") || strings.HasSuffix(file, "_test.go") {
+				continue
+			}
+			for _, b := range fn.Blocks {
+				for _, in := range b.Instrs {
+					r, ok := in.(*ssa.Range)
+					if !ok {
+						continue
+					}
+					if _, isMap := r.X.Type().Underlying().(*types.Map); !isMap {
+						continue
+					}
+					name := fn.String()
+					if o := fn.Origin(); o != nil {
+						name = o.String()
+					}
+					name = strings.ReplaceAll(name, modulePath+"/", "")
+					pos := ld.prog.Fset.Position(r.Pos())
+					site := fmt.Sprintf("%s (%s:%d)", name, strings.TrimPrefix(pos.Filename, repoDir+"/"), pos.Line)
+					if seenSite[site] {
+						continue
+					}
+					seenSite[site] = true
+					mapSites = append(mapSites, site)
+					covered := false
+					for _, c := range spec.CoveredSites {
+						if strings.Contains(name, c) {
+							covered = true
+						}
+					}
+					if !covered {
+						uncoveredSites = append(uncoveredSites, site)
+					}
+				}
+			}
+		}
+		sort.Strings(mapSites)
+		sort.Strings(uncoveredSites)
+		for _, s := range uncoveredSites {
+			fmt.Println("UNCOVERED-SITE", s)
+		}
+		fmt.Printf("[%s] map-range sites in loaded target packages: %d, without an order-independence harness: %d\n", prop, len(mapSites), len(uncoveredSites))
+	}
 	kn, _ := loadKnown()
 
 	replayDir := filepath.Join(verifDir, "out", "replay", prop)
@@ -906,6 +963,8 @@ func cmdCheck(args []string) int {
 			"package_load_s":                ld.loadS,
 			"ssa_build_s":                   ld.ssaS,
 			"known_findings_reported":       knownHits,
+			"map_range_sites":               mapSites,
+			"map_range_sites_uncovered":     uncoveredSites,
 			"engine_errors":                 engineErrs,
 			"encoded_doc":                   spec.Encoded,
 			"exhaustive":                    false,
